@@ -20,7 +20,9 @@ CHECKS = {
              "node kinds, Vars with proxies, Dist/TransientDist with `at`) in a symbolic value regime (node functions "
              "build term strings: exact comparison) are driven through random histories and every post-state "
              "(values, outdated flags, evaluated nodes) is validated; TLC-simulated behaviours of the spec are replayed "
-             "on real models.",
+             "on real models. Exception paths are part of the spec (a node function that raises aborts the sweep where it "
+             "stands; poison value in the symbolic regime; the model's real sweep order is logged) as is pop / assign "
+             "outside any model / rebuild.",
         note="The graph given to the spec is the driver's construction plan, not the model's introspection. " + TRUST,
         technique="TLA+ spec (LieselGraph) + TLC over all DAG shapes and histories + trace validation of real models (symbolic terms) + replay of simulated behaviours",
         ref="DESIGN.md section 5, C01",
@@ -60,7 +62,9 @@ CHECKS = {
              "C05 (acceptance rule), C06 (corrections), C13 (exact conditionals), C09 (sequencing and coherent state), C11 "
              "(frozen tuning), and here P6: the glue of the HMC/NUTS kernels with blackjax is validated on eager transitions "
              "with the blackjax factory wrapped (density handed over = model density over the block incl. a transformed "
-             "parameter, start state, write-back, full refresh, untouched other parameters and tuning state).",
+             "parameter, start state, write-back, full refresh, untouched other parameters and tuning state). A reduced "
+             "conformance run of the premises P1-P4 and P7 (independent keys per kernel of a sequence) is part of this check "
+             "too, so that a broken premise is reported under C04 as well.",
         note="NOT decided: that blackjax's HMC/NUTS integrators and trajectory samplers are pi-invariant, and PRNG quality - trusted third-party base; no statistical sampling test is run. " + TRUST,
         technique="TLA+ design theorem (Invariance, Gibbs invariance) by TLC + trace validation of the blackjax glue; premises by C05/C06/C09/C11/C13",
         ref="DESIGN.md section 5, C04 and section 6",
@@ -71,7 +75,9 @@ CHECKS = {
              "checks every clause of the property; the real mh_step is bound by trace validation: one trace per "
              "PRNG key over the whole input grid (vmap+jit, jit, eager), the unobservable uniform draw is a hidden "
              "variable whose feasible interval must stay non-empty, keys whose draw is exactly 0.0 are searched for "
-             "at check time and included.",
+             "at check time and included; log-densities of magnitude up to 3e7 with exactly representable differences are "
+             "part of the grid; the same rule is validated on the transition infos of RW / MH / IWLS kernels running in "
+             "two-kernel sequences.",
         note="Assumes the uniform draw is in [0,1) and a function of the key only. " + TRUST,
         technique="TLA+ spec (MHStep) with IEEE operator override + TLC enumeration + trace validation with a hidden variable",
         ref="DESIGN.md section 5, C05",
@@ -125,7 +131,10 @@ CHECKS = {
              "distribution, transformed parameter, stored log-prob/lik/prior) and a dict model behind the wrapping probe, "
              "with kernel identifiers whose sort order differs from the configured order; each transition's parameters "
              "before/after and carried derived quantities are validated, derived quantities against a from-scratch "
-             "recomputation on the user's own model.",
+             "recomputation on the user's own model and against a float64 closed form (two more Liesel models: a weak "
+             "variable with a distribution, a default-transformed variable whose bijector depends on a sampled parameter, "
+             "the built-in finite-discrete Gibbs kernel with start values assigned after kernel creation); HMC start state "
+             "and Gibbs / MH-type kernels' use of the predecessor's state are validated with the glue / Gibbs / proposal traces.",
         note="Recomputation uses liesel's Model.update() directly (cache coherence of that is C01); float32 jit vs eager compared with rtol/atol 2e-5. " + TRUST,
         technique="TLA+ spec (Composition, GooseEngine) + TLC + trace validation of wrapped real kernels with independent recomputation",
         ref="DESIGN.md section 5, C09",
